@@ -4,7 +4,7 @@
 package vsync
 
 import (
-	"fmt"
+	"strings"
 	"sync"
 
 	"github.com/mochi-mqtt/server/v2/zzvrt"
@@ -33,7 +33,7 @@ func (m *Mutex) Lock() {
 	}
 	zzvrt.Point("Mutex.Lock")
 	if m.locked {
-		zzvrt.Block(zzvrt.BlockLock, "Mutex", func() bool { return !m.locked })
+		zzvrt.Block(zzvrt.BlockLock, "Mutex.Lock@"+callers(), func() bool { return !m.locked })
 	}
 	m.locked = true
 }
@@ -97,7 +97,7 @@ func (rw *RWMutex) RLock() {
 	}
 	zzvrt.Point("RWMutex.RLock")
 	if rw.pending {
-		zzvrt.Block(zzvrt.BlockLock, "RWMutex.RLock", func() bool { return !rw.pending })
+		zzvrt.Block(zzvrt.BlockLock, "RLock@"+callers(), func() bool { return !rw.pending })
 	}
 	rw.readers++
 	if t != nil {
@@ -153,12 +153,12 @@ func (rw *RWMutex) Lock() {
 	}
 	zzvrt.Point("RWMutex.Lock")
 	if rw.wLocked {
-		zzvrt.Block(zzvrt.BlockLock, "RWMutex.Lock(w)", func() bool { return !rw.wLocked })
+		zzvrt.Block(zzvrt.BlockLock, "Lock@"+callers(), func() bool { return !rw.wLocked })
 	}
 	rw.wLocked = true
 	rw.pending = true // from here on new readers block
 	if rw.readers > 0 {
-		zzvrt.Block(zzvrt.BlockLock, "RWMutex.Lock(readers)", func() bool { return rw.readers == 0 })
+		zzvrt.Block(zzvrt.BlockLock, "Lock@"+callers(), func() bool { return rw.readers == 0 })
 	}
 	rw.held = true
 }
@@ -327,4 +327,4 @@ func (p *Pool) Put(x any) {
 	p.items = append(p.items, x)
 }
 
-func callers() string { return fmt.Sprint(zzvrt.Callers(3, 6)) }
+func callers() string { return strings.Join(zzvrt.CallerNames(3, 3), "<") }
